@@ -335,10 +335,18 @@ func signature(metric labels.Labels, without bool, grouping []string, keepOrigin
 func buildOutputSeries(seriesID uint64, highCardSeries, lowCardSeries model.Series, includeLabels []string) model.Series {
 	metric := highCardSeries.Metric
 	if len(includeLabels) > 0 {
-		lowCardLabels := labels.NewBuilder(lowCardSeries.Metric).
-			Keep(includeLabels...).
-			Labels(nil)
-		metric = append(metric, lowCardLabels...)
+		// Included labels from the low cardinality side overwrite the labels
+		// of the high cardinality side, an empty value removes the label.
+		// The builder keeps the resulting label set sorted.
+		lb := labels.NewBuilder(highCardSeries.Metric)
+		for _, name := range includeLabels {
+			if v := lowCardSeries.Metric.Get(name); v != "" {
+				lb.Set(name, v)
+			} else {
+				lb.Del(name)
+			}
+		}
+		metric = lb.Labels(nil)
 	}
 	return model.Series{ID: seriesID, Metric: metric}
 }
